@@ -457,6 +457,14 @@ def emit(ctx, proofs, level="proof"):
     return 1 if nviol else 0
 
 
+def _lines(out):
+    """Output lines, split at LF only (str.splitlines would also split at U+2028, U+0085, FF ...)."""
+    parts = out.split("\n")
+    if parts and parts[-1] == "":
+        parts.pop()
+    return [p[:-1] if p.endswith("\r") else p for p in parts]
+
+
 def run_lines(binary, args, lines, timeout=900, shards=1):
     """Feeds lines to `binary args` (optionally sharded over processes) and
     returns the output lines in order."""
@@ -464,7 +472,7 @@ def run_lines(binary, args, lines, timeout=900, shards=1):
         rc, out, err = sh([binary] + args, inp="\n".join(lines) + "\n", timeout=timeout)
         if rc != 0:
             raise BuildError("%s %s failed rc=%d" % (os.path.basename(binary), " ".join(args), rc), err[-2000:])
-        return out.splitlines()
+        return _lines(out)
     import concurrent.futures
     n = len(lines)
     size = (n + shards - 1) // shards
@@ -474,7 +482,7 @@ def run_lines(binary, args, lines, timeout=900, shards=1):
         rc, out, err = sh([binary] + args, inp="\n".join(ch) + "\n", timeout=timeout)
         if rc != 0:
             raise BuildError("%s %s failed rc=%d" % (os.path.basename(binary), " ".join(args), rc), err[-2000:])
-        return out.splitlines()
+        return _lines(out)
     with concurrent.futures.ThreadPoolExecutor(max_workers=shards) as ex:
         outs = list(ex.map(one, chunks))
     res = []
